@@ -110,8 +110,8 @@ def tr_value_tokens(spec):
     entries = []
     for given, v in zip(mask, spec['full']):
         entries.append(T(num(v)) if given else None)
-    while entries and entries[-1] is None:
-        entries.pop()
+    while entries and entries[-1] is None and spec['n'] != 13:
+        entries.pop()       # (with a 13th entry the jumps must be written)
     # collapse runs of placeholders into nJ (or spell them out one by one)
     out = []
     run = 0
@@ -126,6 +126,8 @@ def tr_value_tokens(spec):
                 out.append(T(raw('%dj' % run if run > 1 else 'j')))
             run = 0
         out.append(e)
+    if run:
+        out.extend(T(raw('j')) for _ in range(run))
     toks += out
     if spec['n'] == 13:
         m = spec['m'] if spec.get('m') is not None else 1
